@@ -294,13 +294,16 @@ def c14_run(spec, feed=None):
         try:
             req.parse()
         except httping.HTTPException as ex:
-            err = type(ex).__name__
+            err = "HTTPException"
+            break
+        except ValueError as ex:          # escapes the parser (C16's concern); classified, not judged, here
+            err = "ValueError"
             break
     for _ in range(3):
         if err is None and req.parser is not None:
             req.parse()
     if err is not None or not req.ended or req.errored:
-        out["state"] = ("error", err or (req.error if req.errored else "incomplete"))
+        out["state"] = ("error", err or ("HTTPException" if req.errored else "incomplete"))
         return out
     out["state"] = ("ok",)
     out["leftover"] = bytes(ix.rxbs)
@@ -373,7 +376,8 @@ class World:
         self.used = {port: 0 for port in self.scripts}
         self.tick_no = 0
         self.socks = []            # every connection ever opened: (port, sock)
-        self.wire = []             # requests as the servers saw them: (port, head, body) in arrival order
+        self.wire = []             # requests as the servers saw them: (port, head, body, tls) in arrival order
+        self.served = []           # the scripted response each of them drew
         self.inflight = 0          # requests seen complete whose response has not been completely read by the client
         self.partial = False
         self.overlap = False
@@ -405,12 +409,13 @@ class World:
         done, rest = split_requests(sock.buf)
         sock.buf[:] = rest
         for head, body in done:
-            self.wire.append((port, head, body))
+            self.wire.append((port, head, body, bool(sock.tls)))
             self.inflight += 1
             k = self.used[port]
             self.used[port] += 1
             script = self.scripts[port]
             resp = script[k] if k < len(script) else (200, None, b"", 0, 0, [], False)
+            self.served.append(resp)
             raw, close = c19_response_bytes(resp)
             delay, cuts = resp[4], resp[5]
             pts = sorted(set(min(max(c, 1), len(raw)) for c in cuts) | {len(raw)})
@@ -508,7 +513,7 @@ def c19_run(case):
         connector = cls(ha=(HOST, port0), tymth=tymist.tymen())
         client = clienting.Client(connector=connector, hostname=HOST, port=port0)
         client.reopen()
-        n_first = len(reqs) - min(late, len(reqs))
+        n_first = max(1, len(reqs) - min(late, len(reqs))) if reqs else 0
 
         def queue(k):
             method, path, body = reqs[k]
@@ -550,7 +555,12 @@ def c19_run(case):
         entries.append(dict(status=r["status"], body=bytes(r["body"]), errored=bool(r["errored"]), tag=rq.get("reply"),
                             method=rq.get("method"), path=rq.get("path"), rbody=bytes(rq.get("body") or b""),
                             redirects=[(h["status"], h["request"].get("path"), h["request"].get("reply")) for h in r.get("redirects", [])]))
-    out.update(entries=entries, wire=[(p, h.split(b"\r\n", 1)[0], b) for p, h, b in world.wire], overlap=world.overlap,
-               waited=bool(client.waited), left=len(client.requests), sent_to=dict(world.sent_to), unknown=list(world.unknown_target),
+    wire = []
+    for p, h, b, tls in world.wire:
+        parts = h.split(b"\r\n", 1)[0].split(b" ")
+        wire.append((p, tls, parts[0], parts[1] if len(parts) > 1 else b"", b))
+    out.update(entries=entries, wire=wire, served=list(world.served), overlap=world.overlap,
+               insecure_bytes=sum(len(sk.sent) for _, sk in world.socks if not sk.tls),
+               waited=bool(client.waited), left=len(client.requests) + (len(reqs) - queued), sent_to=dict(world.sent_to), unknown=list(world.unknown_target),
                conns=[p for p, _ in world.socks])
     return out
